@@ -724,6 +724,34 @@ func (c *EvalCtx) evalCall(n ECall, want *Sort) (Val, error) {
 		}
 		x.birth()
 		return boolVal(and("(> "+v.L[0]+" 0)", "(> (birth "+v.L[0]+") "+c.old.now+")")), nil
+	case "ptr":
+		// ptr(T, e): the reference e viewed as a *T (T a struct type of the contract's package)
+		id, ok := n.Args[0].(EIdent)
+		if !ok || len(n.Args) != 2 {
+			return Val{}, c.errf("ptr(Type, ref)")
+		}
+		var t types.Type
+		for _, p := range x.w.pkgs {
+			if !inMod(p.PkgPath, modulePath) {
+				continue
+			}
+			if o := p.Types.Scope().Lookup(id.Name); o != nil {
+				if _, isT := o.(*types.TypeName); isT {
+					t = o.Type()
+					if x.cur != nil && x.cur.fn.Pkg != nil && x.cur.fn.Pkg.Pkg == p.Types {
+						break
+					}
+				}
+			}
+		}
+		if t == nil {
+			return Val{}, c.errf("ptr: unknown type %s", id.Name)
+		}
+		v, err := arg(1, nil)
+		if err != nil {
+			return Val{}, err
+		}
+		return Val{GT: types.NewPointer(t), S: []*Sort{sortRef}, L: []string{v.L[0]}}, nil
 	case "ownfresh":
 		// allocated by the activation under verification (still private to it), or nil
 		v, err := arg(0, nil)
